@@ -140,7 +140,8 @@ P = {
          "class: C11_refuted (always-accept reaches a non-terminal state without offers; every further action raises, for every "
          "fuel) and C11_refuted_hang; 'with early transport disabled an AGV is only dispatched to a ready job' is FALSE too: "
          "C11_dispatch_only_to_ready_jobs_refuted (a release and a zero-travel dispatch computed from one state, the release applied first; "
-         "found while trying to prove the dispatch event clause along every run). All three witnesses are replayed on the implementation on every "
+         "found while trying to prove the dispatch event clause along every run); what IS true, without hypotheses: every dispatch OFFERED to the agent names a ready job "
+         "in the state it is presented and applied in (C11_offered_dispatches_name_ready_jobs). All three witnesses are replayed on the implementation on every "
          "run. The check classifies every dead end reached; readiness tests regenerated from source (C11_*_is_the_code's). " + TIE),
  "C12": ("SM", "Theorems (Props/C12.v; SMP/Clock, ClockStep, ClockMain): no transition moves the clock; the time machines used by the "
          "middleware never move it backwards and never past a pending completion; the clock invariant NO (nothing pending lies in the "
